@@ -425,19 +425,23 @@ INVOLVED = {
 }
 KEYED = ("map-key", "set")      # shapes whose keys are containers: building and looking up hashes and compares the keys
 
-# configuration flag of the model (= what the code lacks) -> finding class
+# configuration flag of the model (= what the code lacks) -> finding class.  The classes of repaired defects keep their
+# names: they are no longer in KNOWN_FINDINGS.txt, so a failure that the model blames on one of them (the scan found the flag
+# off again) is a VIOLATION.
 CLASS_OF = {
     "hashIterative": "hash_native_recursion",
-    "printNoReentry": "display_reenters_display",
-    "dropAllIterative": "drop_native_recursion",
+    "printMapNoReentry": "display_reenters_display",
+    "printBoxNoReentry": "display_reenters_display_boxes",          # repaired by fffa6bd3
+    "dropClosureBoxIterative": "drop_native_recursion",
+    "dropPairSetIterative": "drop_native_recursion_pairs",            # repaired by 31703dd1
     "eqKeysIterative": "equal_key_reentry",
-    "eqBoxVisited": "equal_unchecked_box_pairs",
+    "eqBoxVisited": "equal_unchecked_box_pairs",                      # repaired by 35ea4f4c
     "markSboxVisited": "mark_strong_box_cycle",
     "markImmVisited": "mark_shared_immutable_exponential",
-    "ccSboxMutable": "cycle_collector_strong_box_cycle",
+    "ccSboxMutable": "cycle_collector_strong_box_cycle",              # repaired by fffa6bd3
     "ccTracksAlways": "cycle_collector_untracked_before_mutable",
     "serialize": "serialize_native_recursion",
-    "labels": "display_cycle_label_lookup",
+    "labels": "display_cycle_label_lookup",                           # repaired by fffa6bd3
 }
 PRINT_OPS = ("display-port", "write-port", "print-port", "host-display", "host-debug")
 
@@ -506,11 +510,8 @@ def explain(shape, op, verdict, detail, pred, table):
             causes.append(cause)
         elif verdict in ("panic", "wrong") and cls == "diverges":
             causes.append(cause)
-    if shape.startswith("cycle:") and op in PRINT_OPS and verdict in ("panic", "timeout", "crash"):
-        if verdict == "panic":
-            causes.insert(0, "labels")      # the panic is the label lookup, whatever else is wrong with the value
-        else:
-            causes.append("labels")
+    if shape.startswith("cycle:") and op in PRINT_OPS and verdict == "panic":
+        causes.insert(0, "labels")          # the panic is the label lookup, whatever else is wrong with the value
     out = []
     for c in causes:
         k = CLASS_OF.get(c)
@@ -527,7 +528,7 @@ CYCLE_OPS = ["create", "equal-copy", "equal-self", "host-eq", "hash-code", "disp
 QUICK_CYCLE_OPS = ["equal-copy", "hash-code", "display-port", "host-display", "gc-live", "gc-dead"]
 # shapes whose Display re-enters Display (quadratic cycle detection): in the quick tier one printing case per shape at 10^5 is
 # enough to see the class, every further one only burns its whole time bound
-REENTRANT_PRINT = ("box", "sbox", "mstruct", "mixed", "map-value")
+REENTRANT_PRINT = ("mixed", "map-value")
 
 
 def plan(ctx, rng):
